@@ -112,8 +112,65 @@ def oracle(ctx, case, hist, maps, spec):
         prev = st
 
 
+def name_mode_probe(ctx):
+    """`delete_data` removes the stored results of exactly the forced tasks — also in name mode, where the results of different configs
+    lie side by side in one task directory under their config names (`exp`, `exp.v2`, `exp.v2.b`, `expx`): forcing with deletion in one
+    config leaves result, run info and log of every other config where they are (frame property `C07.forceAll_store_keep`)"""
+    from tcv import gen, pipeline as pl
+    from tcv.data_kinds import persisting
+    root = ctx.tmpdir() / 'nm'
+    names = ['exp', 'exp.v2', 'exp.v2.b', 'expx', 'ex']
+    for k in range(ctx.n(6, 40)):
+        rng = ctx.rng('name-mode', k)
+        kinds = [rng.choice(['json', 'numpy', 'pandas', 'generated', 'listnp', 'dir']) for _ in range(2)]
+        spec = {'classes': {'K0': {'name': 'up', 'group': rng.choice(['', 'g']), 'params': [{'name': 'x'}], 'inputs': [], 'kind': kinds[0], 'run_args': ['x']},
+                            'K1': {'name': 'down', 'group': '', 'params': [], 'inputs': [{'by': 'class', 'ref': 'K0'}], 'kind': kinds[1], 'run_args': [],
+                                   'pull': [], 'in_kinds': {}}},
+                'files': {f'{n}.json': {'tasks': ['K0', 'K1'], 'x': i} for i, n in enumerate(names)}, 'main': 'exp.json'}
+        b = pl.materialize(spec, root / f'c{k}', modname=gen.fresh_modname())
+        b.module()
+        data = root / f'd{k}'
+        chains = {}
+        for n in names:
+            ch, err = pl.build(b, data, main=f'{n}.json', parameter_mode=False)
+            if err:
+                break
+            chains[n] = ch
+            for t in ch.tasks.values():
+                _ = t.value
+        case = {'probe': 'name mode: delete_data next to other configs', 'kinds': kinds, 'configs': names}
+        ctx.case(case); ctx.count('name-mode-probe')
+        if len(chains) < len(names):
+            b.cleanup_module(); continue
+
+        def files(ch):
+            out = {}
+            for t in ch.tasks.values():
+                d = t._data_without_value
+                out[t.fullname] = (t.data_path.exists(), d.run_info_path.exists(), d.log_path.exists())
+            return out
+        victim = rng.choice(names)
+        before = {n: files(ch) for n, ch in chains.items() if n != victim}
+        target = rng.choice(['up', 'down'])
+        chains[victim].force(target, delete_data=True)
+        for t in chains[victim].tasks.values():
+            forced = t.slugname.endswith(target) or target == 'up'
+            if forced and persisting(t) and t.has_data:
+                ctx.fail('chain.force(delete_data=True) left the stored result of a forced task (name mode)', case, {'config': victim, 'task': t.fullname})
+            if not forced and persisting(t) and not t.has_data:
+                ctx.fail('chain.force(delete_data=True) removed the stored result of an unforced task (name mode)', case, {'config': victim, 'task': t.fullname})
+        after = {n: files(ch) for n, ch in chains.items() if n != victim}
+        if after != before:
+            bad = [(n, tn) for n in before for tn in before[n] if before[n][tn] != after[n][tn]]
+            # (K7: a DIRECTORY result with a dotted config name shares run info and log with the name up to its last dot — not touched here either)
+            ctx.fail('forcing with delete_data in one config removed stored results, run info or logs of ANOTHER config of the same data directory', case,
+                     {'forced_config': victim, 'forced_task': target, 'lost': bad[:4]})
+        b.cleanup_module()
+
+
 def run(ctx):
     machine.run_batch(ctx, ctx.n(60, 800), allow={'force', 'restart', 'fail'}, label='force', oracle=oracle, stamp=True)
+    name_mode_probe(ctx)
 
 
 def search(ctx, divergences):
